@@ -439,9 +439,9 @@ int sweepClockKeep(uint32_t phaseFrom, uint32_t phaseCount) {
       for (uint32_t g = 1; g <= 64536; g++) {
         ace_time::testing::TestableSystemClockLoop clk(nullptr, nullptr, &fm);
         uint64_t m0 = bases[b] + p;
-        fm.millis((unsigned long)(uint32_t)m0);
+        fm.millis((sim_ulong_t)(uint32_t)m0);
         clk.setNow(T);
-        fm.millis((unsigned long)(uint32_t)(m0 + g));
+        fm.millis((sim_ulong_t)(uint32_t)(m0 + g));
         acetime_t r = clk.getNow();
         pairs++;
         if (r != (acetime_t)(T + g / 1000)) {
